@@ -310,7 +310,7 @@ def _codec(run, vc, keep, label, build="release", tables=None, tag=""):
         raise vc.ToolError("vacuity: only %d of the 28 types produced vectors" % len(types))
     _sample(run, vecs)
     s = vc.replay(vecs, run.prop.lower() + tag, tables, profiles="5", build=build)
-    run.add_replay(s, label, vecs, lambda v: v["act"] in ("IsZero", "Default") or v["mut"]["kind"] != "none")
+    run.add_replay(s, label, vecs, lambda v: v["act"] in ("IsZero", "Default", "Select") or v["mut"]["kind"] != "none")
     return vecs, tables
 
 
@@ -340,7 +340,7 @@ def _fuzz_trace(run, vc, tables, iters, build="release"):
 
 
 def c15(run, vc):
-    vecs, tables = _codec(run, vc, lambda v: v["act"] == "Default" or (v["act"] == "Codec" and v["mut"]["kind"] == "none"), "round trip of every type x codec x variant x value class, all container conversions, determinism, layout lengths")
+    vecs, tables = _codec(run, vc, lambda v: v["act"] in ("Default", "Select") or (v["act"] == "Codec" and v["mut"]["kind"] == "none"), "round trip of every type x codec x variant x value class, all container conversions and front ends, determinism, layout lengths; default values; constant-time selection laws")
     if vecs is not None:
         _fuzz_trace(run, vc, tables, 60 if run.tier == "quick" else 600)
     return run.finish(rule="vectors = every (type, codec, variant, value class) of the Codec model with no mutation: 28 types x {byte conversion, serde_bare, serde_json} x scheme / curve variants x value classes {generic, identity point, scalar 1 / r-1, empty / large payload, share ids}; derived = the four container conversions, owned/borrowed encoders, determinism, encoded length vs layout; trace = random values of every type through every codec, validated by TLC (Trace_Codec.TRoundTrip)",
